@@ -78,6 +78,11 @@ var schedPoints = map[string][]string{
 	"del":  {"delete.target-chosen", "delete.rewritten", "delete.before-swap"},
 	"cons": {"reader.consume.index-read"},
 	"gc":   {"reader.gc.index-closed"},
+	// reads held between their look at the index and what they do with it
+	"cbk": {"reader.consumebykey.keys-read"},
+	"get": {"reader.get.index-read"},
+	"gbk": {"reader.getbykey.keys-read"},
+	"gbt": {"reader.getbytime.index-read"},
 }
 
 func genSched(w *bufio.Writer, root string, seed uint64, n, ops int) {
@@ -177,13 +182,26 @@ func genSched(w *bufio.Writer, root string, seed uint64, n, ops int) {
 		for win := 0; win < ops; win++ {
 			// the held call
 			var hline, kind string
-			switch x := r.intn(10); {
+			switch x := r.intn(15); {
 			case x < 4:
 				kind, hline = "pub", pubLine(1+r.intn(3), 60)
 			case x < 7:
 				kind, hline = "del", delLine()
 			case x < 9:
 				kind, hline = "cons", fmt.Sprintf("cons %d %d", int64(r.intn(int(next)+1)), 1+r.intn(4))
+			case x < 11:
+				// mostly at the end of the log: the head is the segment it looks at first
+				off := next - int64(r.intn(3))
+				if off < 0 || r.chance(25) {
+					off = int64(r.intn(int(next) + 1))
+				}
+				kind, hline = "cbk", fmt.Sprintf("cbk %s %d %d", dash(keys[r.intn(len(keys))]), off, 1+r.intn(3))
+			case x < 12:
+				kind, hline = "get", fmt.Sprintf("get %d", int64(r.intn(int(next)+2))-1)
+			case x < 13:
+				kind, hline = "gbk", "gbk "+dash(keys[r.intn(len(keys))])
+			case x < 14:
+				kind, hline = "gbt", fmt.Sprintf("gbt %d", 1_000_000+int64(r.intn(int(t-1_000_000)+2)))
 			default:
 				kind, hline = "gc", "gc"
 				// make sure some closed segment is loaded
